@@ -27,6 +27,13 @@
 #define FIRE_CAUSAL_LINK_ADDED(f, r)
 #endif
 
+#ifdef PSTLAB_ORATIO_VERIF
+namespace oratio_verif
+{
+  struct access;
+}
+#endif
+
 namespace ratio
 {
   class solver;
@@ -47,6 +54,9 @@ namespace ratio
     friend class atom_flaw;
 #ifdef BUILD_LISTENERS
     friend class solver_listener;
+#endif
+#ifdef PSTLAB_ORATIO_VERIF
+    friend struct ::oratio_verif::access;
 #endif
 
   public:
